@@ -110,3 +110,12 @@ theorem tile_unique (g : Nat → Int) (hg : ∀ k, g k ≤ g (k + 1)) (i j : Nat
   · have := mono_le g hg (j + 1) i (by omega); omega
 
 end Homonim
+
+namespace Homonim
+/-- the processing input window contains the processing output window -/
+theorem in_contains_out_plus_overlap_aux (A B s v : Int) (hv : 0 ≤ v) (k : Nat) :
+    (procIn A B s v k).lo ≤ (procOut A B s v k).lo ∧ (procOut A B s v k).hi ≤ (procIn A B s v k).hi := by
+  unfold procIn procOut blockUl
+  simp only
+  omega
+end Homonim
